@@ -158,6 +158,7 @@ func LoadProgram(o LoadOpts) (*Prog, error) {
 	for _, sp := range prog.AllPackages() {
 		p.SSAPkg[sp.Pkg.Path()] = sp
 	}
+	gProg = p
 	return p, nil
 }
 
@@ -474,3 +475,7 @@ func isWrapper(f *ssa.Function) bool {
 	s := f.Synthetic
 	return strings.HasPrefix(s, "wrapper") || strings.HasPrefix(s, "bound") || strings.HasPrefix(s, "thunk")
 }
+
+// gProg is the program under analysis (set by LoadProgram); used by value matchers that look through
+// the parameters of private helpers.
+var gProg *Prog
